@@ -1,6 +1,6 @@
 import NodisVerif.Proofs.C09Run
 import NodisVerif.Proofs.C09Sound
-import NodisVerif.Proofs.C09Table1b
+import NodisVerif.Proofs.C09Full
 import NodisVerif.Proofs.C09Writers3
 import NodisVerif.Proofs.C09IncrExec
 /-
@@ -79,23 +79,20 @@ theorem flush_aborts {sv : Server} (hwf : RegWF sv) (m : Cmd) (hfl : ∃ o ∈ s
 /-! ## soundness -/
 
 /-
-  FULL STATEMENT (property text): "if some step strictly between the WATCH and the EXEC signalled k,
-  that EXEC replies null and has no effect".  The model (and the Go code: `exec` tests
-  `len(conn.Commands) == 0` BEFORE the watch flags, and the MultiError bit before both) deviates in
-  the reply only:
-    * transaction with an EMPTY queue (WATCH k; …k changes…; MULTI; EXEC): reply `*0`, not null
-      — finding region `queue = []`, witness `watch_sound_finding` below;
-    * a queue-time error: reply `-EXECABORT` (that is also what Redis does).
-  "Has no effect" holds without any side condition.  `watch_sound_partial` is the full statement
-  outside the region (clean prepared transaction with a non-empty queue).
+  Property text: "if some step strictly between the WATCH and the EXEC signalled k, that EXEC replies
+  null and has no effect".  `exec` tests, in this order: prepared?  MultiError bit?  watch flags?
+  empty queue?  So with a dirty watch every prepared transaction without a queue-time error — the
+  EMPTY one included (this was a finding before the `fix:` of `exec`; the old witness is now the
+  positive example `dirty_watch_empty_transaction_replies_null` below) — replies null.  A queue-time
+  error replies `-EXECABORT` (as in Redis), EXEC without MULTI an error; "no effect" holds always.
 -/
 
 /-- In any schedule: connection `w.id` WATCHes k outside MULTI (`w`, served in state `sv`); `mid` are
     the commands of all connections served afterwards, among them none by which `w.id` ends its
     watches (so `e` is its first EXEC after the WATCH, and no DISCARD / running UNWATCH in between);
     some step of `mid` — by any connection, `w.id` included — signalled k.  Then the EXEC `e` of
-    `w.id` has NO EFFECT (store unchanged, no closure runs), and, unless the queue is empty or a
-    queue-time error occurred, it replies exactly the null bulk. -/
+    `w.id` has NO EFFECT (store unchanged, no closure runs), and, if the connection is in MULTI
+    without a queue-time error, it replies exactly null — whatever the queue holds. -/
 theorem watch_sound {sv : Server} (hwf : RegWF sv) (w e : Cmd) (mid : List Cmd) (k : Bytes)
     (hw : w.name = "WATCH") (hk : k ∈ w.args) (hacc : (sv.conn w.id).state % 2 ≠ 1)
     (hmid : AllSteps H (notClearedBy w.id) (step H sv w).1 mid)
@@ -103,7 +100,7 @@ theorem watch_sound {sv : Server} (hwf : RegWF sv) (w e : Cmd) (mid : List Cmd) 
     (he : e.name = "EXEC") (hid : e.id = w.id) :
     let svE := (run H (step H sv w).1 mid).1
     (step H svE e).1.store = svE.store ∧ stepOuts H svE e = [] ∧
-    ((svE.conn e.id).state % 2 = 1 → ((svE.conn e.id).state / 4) % 2 ≠ 1 → (svE.conn e.id).queue ≠ [] →
+    ((svE.conn e.id).state % 2 = 1 → ((svE.conn e.id).state / 4) % 2 ≠ 1 →
       (step H svE e).2 = [Tok.nullBulk]) := by
   intro svE
   have hne : w.args ≠ [] := by intro h; rw [h] at hk; cases hk
@@ -115,22 +112,21 @@ theorem watch_sound {sv : Server} (hwf : RegWF sv) (w e : Cmd) (mid : List Cmd) 
   refine ⟨exec_flag_no_effect svE e.id e.now hany, ?_, ?_⟩
   · have : ¬ execRuns (svE.conn e.id) := fun h => by rw [h.2.2.2] at hany; cases hany
     simp [stepOuts, he, this]
-  · intro h1 h2 h3
-    rw [exec_watch_abort svE e.id e.now h1 h2 h3 hany]
+  · intro h1 h2
+    rw [exec_watch_abort svE e.id e.now h1 h2 hany]
 
-/-- the same outside the finding region, in the words of the property: the EXEC of a clean,
-    non-empty transaction replies null and leaves the store unchanged -/
-theorem watch_sound_partial {sv : Server} (hwf : RegWF sv) (w e : Cmd) (mid : List Cmd) (k : Bytes)
+/-- in the words of the property: the EXEC of a transaction (state "prepare", no queue-time error;
+    any queue, empty or not) replies null and leaves the store unchanged -/
+theorem watch_sound_null_reply {sv : Server} (hwf : RegWF sv) (w e : Cmd) (mid : List Cmd) (k : Bytes)
     (hw : w.name = "WATCH") (hk : k ∈ w.args) (hacc : (sv.conn w.id).state % 2 ≠ 1)
     (hmid : AllSteps H (notClearedBy w.id) (step H sv w).1 mid)
     (hsig : SomeStep H (fun s m => stepTouches H s m k) (step H sv w).1 mid)
     (he : e.name = "EXEC") (hid : e.id = w.id)
-    (hst : ((run H (step H sv w).1 mid).1.conn e.id).state = multiPrepare)
-    (hq : ((run H (step H sv w).1 mid).1.conn e.id).queue ≠ []) :
+    (hst : ((run H (step H sv w).1 mid).1.conn e.id).state = multiPrepare) :
     (step H (run H (step H sv w).1 mid).1 e).2 = [Tok.nullBulk] ∧
     (step H (run H (step H sv w).1 mid).1 e).1.store = (run H (step H sv w).1 mid).1.store := by
   obtain ⟨a, _, c⟩ := watch_sound H hwf w e mid k hw hk hacc hmid hsig he hid
-  exact ⟨c (by rw [hst]; rfl) (by rw [hst]; decide) hq, a⟩
+  exact ⟨c (by rw [hst]; rfl) (by rw [hst]; decide), a⟩
 
 /-- a sufficient, purely syntactic condition for `hmid`: between its WATCH and its EXEC the
     connection sends no EXEC, DISCARD or UNWATCH -/
@@ -231,12 +227,12 @@ theorem unwatch_inside_multi (sv : Server) (c : Cmd) (hn : c.name = "UNWATCH") (
   `TableSignals H`: every closure `H` hands to `execCommand`, started on a Pebble-backed store with an
   empty `signalled` list, leaves every key it changed in `signalled` (or sets `flushed`).  It is the
   explicit well-formedness predicate of the handler table for C09; it is discharged command by command
-  from the `writers_signal_*` table below (`Proofs/C09Table1.lean` for `Handler.table1`).
+  from the `writers_signal_*` table below (`Proofs/C09Table1*.lean`, `C09Table2*.lean`, `C09Table3.lean`).
 -/
 
 /-- soundness in the words of the property: if the logical content of a WATCHed key k was CHANGED by
-    some step — of any client — between the WATCH and the EXEC, the EXEC has no effect and (clean,
-    non-empty transaction) replies null -/
+    some step — of any client — between the WATCH and the EXEC, the EXEC has no effect and (transaction
+    without queue-time error) replies null -/
 theorem watch_sound_changed {H : Table} (hH : TableSignals H) {sv : Server} (hwf : RegWF sv) (hq : QueuesSignal sv)
     (hp : sv.store.pebble = true) (w e : Cmd) (mid : List Cmd) (k : Bytes)
     (hw : w.name = "WATCH") (hk : k ∈ w.args) (hacc : (sv.conn w.id).state % 2 ≠ 1)
@@ -245,7 +241,7 @@ theorem watch_sound_changed {H : Table} (hH : TableSignals H) {sv : Server} (hwf
     (he : e.name = "EXEC") (hid : e.id = w.id) :
     let svE := (run H (step H sv w).1 mid).1
     (step H svE e).1.store = svE.store ∧ stepOuts H svE e = [] ∧
-    ((svE.conn e.id).state % 2 = 1 → ((svE.conn e.id).state / 4) % 2 ≠ 1 → (svE.conn e.id).queue ≠ [] →
+    ((svE.conn e.id).state % 2 = 1 → ((svE.conn e.id).state / 4) % 2 ≠ 1 →
       (step H svE e).2 = [Tok.nullBulk]) :=
   watch_sound H hwf w e mid k hw hk hacc hmid
     (someStep_changed_touches hH k mid _ (SigInv.step hH ⟨hq, hp⟩ w) hch) he hid
@@ -255,25 +251,52 @@ theorem sigInv_reachable {H : Table} (hH : TableSignals H) (st : MState) (hp : s
     QueuesSignal (run H { store := st } cs).1 ∧ (run H { store := st } cs).1.store.pebble = true :=
   SigInv.run hH cs ⟨QueuesSignal.init st, hp⟩
 
-/-! ### the handler table `Handler.table1` (connection / keyspace / string families)
+/-! ### the server's complete dispatch: `fullTable = Driver.lookup [table1, table2, table3]`
 
-  FULL STATEMENT `TableSignals Handler.table1` is FALSE (`table1_signals_finding`): the closure of
-  `DECRBY k -9223372036854775808` on a missing key creates k (an empty string), fails with the
-  overflow error and signals nothing.  Finding region: name = "DECRBY" with decrement -2^63.  Every
-  other command of the table — INCRBY, all other DECRBY arguments, SET with all its options, MSET,
-  SETRANGE, INCRBYFLOAT, DEL, EXPIRE*, RENAME*, FLUSHDB, all read commands … — signals what it changes.
+  (connection / keyspace / strings; lists / hashes / sets; sorted sets and the *SCAN commands —
+  `Main.tables`).  FULL STATEMENT `TableSignals fullTable` is FALSE / not fully proved; the exact
+  status, command by command:
+  * FALSE, genuine finding (`table_signals_finding`): `DECRBY k -9223372036854775808` on a missing key
+    creates k (the empty string), fails with the overflow error and signals nothing.
+  * FALSE only on stores holding an EXISTING EMPTY sorted set (`T3.signals_zRem_region_witness` …):
+    ZREM / ZREMRANGEBYRANK / ZREMRANGEBYSCORE unlink such a record without signalling.  Since the
+    repairs of ZADD LT|GT and ZUNIONSTORE no API call sequence is known that produces such a record
+    (data-structure lemmas `zAdd_nonempty` …, bounded search of 9.3 million states: none), but no
+    reachability invariant is proved, and `TableSignals` quantifies over all stores — so the three
+    commands are excluded from the table-level theorem and covered by `table3_tells_partial` below
+    (store-relative region).
+  * NOT PROVED: SCAN with a TYPE option (it loads cold records; needs an index invariant).
+  * everything else — all other 100-odd commands and option combinations of the three tables —
+    signals every key it changes: `fullSafe_signals`.
 -/
 
-/-- `Handler.table1` minus DECRBY satisfies the well-formedness predicate -/
-theorem table1Safe_signals : TableSignals table1Safe := Proofs.C08Step.table1Safe_signals
+/-- the complete dispatch minus the excluded region satisfies the well-formedness predicate -/
+theorem fullSafe_signals : TableSignals fullSafe := Proofs.C08Step.fullSafe_signals
 
-/-- every `table1` closure outside the finding region signals every key it changes -/
+/-- … and outside the excluded region it IS the server's dispatch -/
+theorem fullSafe_is_fullTable (name : String) (args : List Bytes) (h : ¬ excluded name args) :
+    fullSafe name args = fullTable name args := fullSafe_eq name args h
+
+/-- per family table, outside the regions -/
 theorem table1_signals_partial (name : String) (args : List Bytes) (b : Body)
-    (h : Handler.table1 name args = some (.exec b)) (hreg : name = "DECRBY" → decrByMin true args = false) :
-    SignalsChanges b := table1_signals_region name args b h hreg
+    (h : Handler.table1 name args = some (.exec b)) (hreg : name = "DECRBY" → decrByMin true args = false)
+    (hsc : ¬ scanTyped name args) : SignalsChanges b := table1_signals_region name args b h hreg hsc
 
-/-- witness -/
-theorem table1_signals_finding :
+theorem table2_signals : TableSignals Handler2.table2 := Proofs.C08Step.table2_signals
+
+theorem table3_signals_partial (name : String) (args : List Bytes) (b : Body)
+    (h : Handler3.table3 name args = some (.exec b)) (hn : name ∉ T3.zRemNames) : SignalsChanges b :=
+  T3.table3_signals_partial name args b h hn
+
+/-- the ZREM family on every store in which the key does not hold an existing empty sorted set -/
+theorem table3_tells_partial (name : String) (args : List Bytes) (b : Body)
+    (h : Handler3.table3 name args = some (.exec b)) (st : MState) (now : Int) (ch : Choice)
+    (hp : st.pebble = true) (hsig : st.signalled = [])
+    (hreg : name ∈ T3.zRemNames → T3.zRemRegion st now args = false) : TellsChanges st (b st now ch) :=
+  T3.table3_tells_region name args b h st now ch hp hsig hreg
+
+/-- witness of the DECRBY finding, and the consequence for the table -/
+theorem table_signals_finding :
     (∃ b, Handler.incrDecrBy true decrByMinArgs = .exec b ∧
       let st : MState := { pebble := true }
       let o := b st 0 none
@@ -281,38 +304,41 @@ theorem table1_signals_finding :
     ¬ TableSignals Handler.table1 :=
   ⟨signals_incrDecrBy_finding, table1_signals_false⟩
 
-/-- soundness for the real handler table, in the words of the property, from a fresh server on any
+/-- soundness for the server's dispatch, in the words of the property, from a fresh server on any
     Pebble-backed store: `pre` is any history; connection `w.id` WATCHes k; if afterwards ANY command of
-    ANY connection (DECRBY excluded) CHANGES the logical content of k before `w.id`'s next EXEC, that
-    EXEC has no effect, and replies null when the transaction is clean and non-empty -/
-theorem watch_sound_table1 (st : MState) (hp : st.pebble = true) (pre mid : List Cmd) (w e : Cmd) (k : Bytes)
+    ANY connection (outside the excluded region) CHANGES the logical content of k before `w.id`'s next
+    EXEC, that EXEC has no effect, and replies null (transaction without queue-time error, any queue) -/
+theorem watch_sound_full (st : MState) (hp : st.pebble = true) (pre mid : List Cmd) (w e : Cmd) (k : Bytes)
     (hw : w.name = "WATCH") (hk : k ∈ w.args)
-    (hacc : ((run table1Safe { store := st } pre).1.conn w.id).state % 2 ≠ 1)
+    (hacc : ((run fullSafe { store := st } pre).1.conn w.id).state % 2 ≠ 1)
     (hmid : ∀ m ∈ mid, m.id = w.id → m.name ≠ "EXEC" ∧ m.name ≠ "DISCARD" ∧ m.name ≠ "UNWATCH")
-    (hch : SomeStep table1Safe (fun s m => Proofs.C09Writers.changed s.store (step table1Safe s m).1.store k)
-      (step table1Safe (run table1Safe { store := st } pre).1 w).1 mid)
+    (hch : SomeStep fullSafe (fun s m => Proofs.C09Writers.changed s.store (step fullSafe s m).1.store k)
+      (step fullSafe (run fullSafe { store := st } pre).1 w).1 mid)
     (he : e.name = "EXEC") (hid : e.id = w.id) :
-    let svE := (run table1Safe { store := st } (pre ++ w :: mid)).1
-    (step table1Safe svE e).1.store = svE.store ∧
-    ((svE.conn e.id).state = multiPrepare → (svE.conn e.id).queue ≠ [] → (step table1Safe svE e).2 = [Tok.nullBulk]) := by
+    let svE := (run fullSafe { store := st } (pre ++ w :: mid)).1
+    (step fullSafe svE e).1.store = svE.store ∧
+    ((svE.conn e.id).state = multiPrepare → (step fullSafe svE e).2 = [Tok.nullBulk]) := by
   intro svE
-  have hinv := sigInv_reachable table1Safe_signals st hp pre
-  have hwf : RegWF (run table1Safe { store := st } pre).1 := RegWF.run table1Safe pre (RegWF.init st)
-  have e1 : svE = (run table1Safe (step table1Safe (run table1Safe { store := st } pre).1 w).1 mid).1 := by
+  have hinv := sigInv_reachable fullSafe_signals st hp pre
+  have hwf : RegWF (run fullSafe { store := st } pre).1 := RegWF.run fullSafe pre (RegWF.init st)
+  have e1 : svE = (run fullSafe (step fullSafe (run fullSafe { store := st } pre).1 w).1 mid).1 := by
     simp only [svE, run_append, run_cons]
-  obtain ⟨a, _, c⟩ := watch_sound_changed table1Safe_signals hwf hinv.1 hinv.2 w e mid k hw hk hacc
-    (notCleared_of_names table1Safe w.id _ mid hmid) hch he hid
+  obtain ⟨a, _, c⟩ := watch_sound_changed fullSafe_signals hwf hinv.1 hinv.2 w e mid k hw hk hacc
+    (notCleared_of_names fullSafe w.id _ mid hmid) hch he hid
   rw [← e1] at a c
-  exact ⟨a, fun h1 h2 => c (by rw [h1]; rfl) (by rw [h1]; decide) h2⟩
+  exact ⟨a, fun h1 => c (by rw [h1]; rfl) (by rw [h1]; decide)⟩
 
 /-! ## the API side: writers signal
 
   One theorem per exported write method of *Nodis: whenever the call changes the logical content of
   ANY key k (its own keys and all others), k is in `signalled` afterwards.  Pebble backend
   (`hypothesis_pebble_is_necessary`: with the in-memory backend `setVal` rewrites every record that
-  shares the value object).  Seven commands are FALSE as stated and are given as `_partial` (outside an
-  explicit decidable region) + `_finding` (witness): addInt (INCRBY/DECRBY), setRange, zaddLT/zaddGT,
-  zrem, zremRangeByRank, zremRangeByScore, zstore (union).
+  shares the value object).  After the repairs of ZADD LT|GT and Z*STORE those hold at full strength.
+  Still FALSE as stated, given as `_partial` (outside an explicit decidable region) + witness:
+  * addInt (DECRBY -2^63 on a missing key) and setRange (offset MaxInt64, embedded API only):
+    genuine `_finding`s, reachable from the empty store;
+  * zrem, zremRangeByRank, zremRangeByScore on an existing EMPTY sorted set: `_region_witness` on a
+    hand-written store that is not known to be reachable any more (see above).
 -/
 section Writers
 open NodisVerif.Store NodisVerif.Api NodisVerif.Proofs.C09Writers
@@ -547,39 +573,24 @@ theorem writers_signal_zaddXX (s : MState) (hp : s.pebble = true) (now : Int) (k
     changed s (Api.zaddXX s now key m sc).1 k → k ∈ (Api.zaddXX s now key m sc).1.signalled :=
   Proofs.C09Writers.writers_signal_zaddXX s hp now key m sc k
 
-/-- ZADD LT|GT (any comparison update `f`) outside the finding region: the key is live, or `f` changes the
-    freshly created empty set -/
-theorem writers_signal_zaddCmp_partial (f : ZSet → Bytes → F64 → ZSet × Bool) (s : MState) (hp : s.pebble = true) (now : Int) (key m : Bytes) (sc : F64) (hreg : live s now key = true ∨ (f DsZSet.empty m sc).2 = true) (k : Bytes) :
+/-- ZADD LT|GT (any comparison update `f`), full strength: no region (the call no longer creates keys) -/
+theorem writers_signal_zaddCmp (f : ZSet → Bytes → F64 → ZSet × Bool) (s : MState) (hp : s.pebble = true) (now : Int) (key m : Bytes) (sc : F64) (k : Bytes) :
     changed s (Api.zaddCmp f s now key m sc).1 k → k ∈ (Api.zaddCmp f s now key m sc).1.signalled :=
-  Proofs.C09Writers.writers_signal_zaddCmp_partial f s hp now key m sc hreg k
+  Proofs.C09Writers.writers_signal_zaddCmp f s hp now key m sc k
 
-theorem writers_signal_zaddLT_partial (s : MState) (hp : s.pebble = true) (now : Int) (key m : Bytes) (sc : F64) (hreg : live s now key = true) (k : Bytes) :
+theorem writers_signal_zaddLT (s : MState) (hp : s.pebble = true) (now : Int) (key m : Bytes) (sc : F64) (k : Bytes) :
     changed s (Api.zaddLT s now key m sc).1 k → k ∈ (Api.zaddLT s now key m sc).1.signalled :=
-  Proofs.C09Writers.writers_signal_zaddLT_partial s hp now key m sc hreg k
+  Proofs.C09Writers.writers_signal_zaddLT s hp now key m sc k
 
-theorem writers_signal_zaddGT_partial (s : MState) (hp : s.pebble = true) (now : Int) (key m : Bytes) (sc : F64) (hreg : live s now key = true) (k : Bytes) :
+theorem writers_signal_zaddGT (s : MState) (hp : s.pebble = true) (now : Int) (key m : Bytes) (sc : F64) (k : Bytes) :
     changed s (Api.zaddGT s now key m sc).1 k → k ∈ (Api.zaddGT s now key m sc).1.signalled :=
-  Proofs.C09Writers.writers_signal_zaddGT_partial s hp now key m sc hreg k
-
-/-- witness: `ZADD k LT 0 m` on a missing key (empty store): an empty sorted set now exists under `k`,
-    nothing is signalled -/
-theorem writers_signal_zaddLT_finding :
-    let s : MState := { pebble := true }
-    let s' := (Api.zaddLT s 0 [107] [109] 0).1
-    changed s s' [107] ∧ [107] ∉ s'.signalled :=
-  Proofs.C09Writers.writers_signal_zaddLT_finding
-
-theorem writers_signal_zaddGT_finding :
-    let s : MState := { pebble := true }
-    let s' := (Api.zaddGT s 0 [107] [109] 0).1
-    changed s s' [107] ∧ [107] ∉ s'.signalled :=
-  Proofs.C09Writers.writers_signal_zaddGT_finding
+  Proofs.C09Writers.writers_signal_zaddGT s hp now key m sc k
 
 theorem writers_signal_zincrby (s : MState) (hp : s.pebble = true) (now : Int) (key m : Bytes) (delta : F64) (k : Bytes) :
     changed s (Api.zincrby s now key m delta).1 k → k ∈ (Api.zincrby s now key m delta).1.signalled :=
   Proofs.C09Writers.writers_signal_zincrby s hp now key m delta k
 
-/-- ZREM outside the finding region: the key does not hold an existing empty sorted set -/
+/-- ZREM outside the region: the key does not hold an existing empty sorted set -/
 theorem writers_signal_zrem_partial (s : MState) (hp : s.pebble = true) (now : Int) (key : Bytes) (members : List Bytes) (hreg : holdsEmptyZSet s now key = false) (k : Bytes) :
     changed s (Api.zrem s now key members).1 k → k ∈ (Api.zrem s now key members).1.signalled :=
   Proofs.C09Writers.writers_signal_zrem_partial s hp now key members hreg k
@@ -592,44 +603,36 @@ theorem writers_signal_zremRangeByScore_partial (s : MState) (hp : s.pebble = tr
     changed s (Api.zremRangeByScore s now key min max mode).1 k → k ∈ (Api.zremRangeByScore s now key min max mode).1.signalled :=
   Proofs.C09Writers.writers_signal_zremRangeByScore_partial s hp now key min max mode hreg k
 
-/-- witnesses: on that store ZREM / ZREMRANGEBYRANK / ZREMRANGEBYSCORE remove nothing, unlink the
-    record, and signal nothing -/
-theorem writers_signal_zrem_finding :
+/-- the hypothesis of the three `_partial` theorems is necessary (on a possibly unreachable state): on
+    `emptyZSetStore` ZREM / ZREMRANGEBYRANK / ZREMRANGEBYSCORE remove nothing, unlink the record, and signal
+    nothing. These are NOT findings against the implementation unless the state is shown reachable. -/
+theorem writers_signal_zrem_region_witness :
     let s' := (Api.zrem emptyZSetStore 0 [107] [[109]]).1
     changed emptyZSetStore s' [107] ∧ [107] ∉ s'.signalled :=
-  Proofs.C09Writers.writers_signal_zrem_finding
+  Proofs.C09Writers.writers_signal_zrem_region_witness
 
-theorem writers_signal_zremRangeByRank_finding :
+theorem writers_signal_zremRangeByRank_region_witness :
     let s' := (Api.zremRangeByRank emptyZSetStore 0 [107] 0 (-1)).1
     changed emptyZSetStore s' [107] ∧ [107] ∉ s'.signalled :=
-  Proofs.C09Writers.writers_signal_zremRangeByRank_finding
+  Proofs.C09Writers.writers_signal_zremRangeByRank_region_witness
 
-theorem writers_signal_zremRangeByScore_finding :
+theorem writers_signal_zremRangeByScore_region_witness :
     let s' := (Api.zremRangeByScore emptyZSetStore 0 [107] 0 0 0).1
     changed emptyZSetStore s' [107] ∧ [107] ∉ s'.signalled :=
-  Proofs.C09Writers.writers_signal_zremRangeByScore_finding
+  Proofs.C09Writers.writers_signal_zremRangeByScore_region_witness
+
+/-- Z*STORE, both flavours, full strength -/
+theorem writers_signal_zstore (union : Bool) (s : MState) (hp : s.pebble = true) (now : Int) (dst : Bytes) (keys : List Bytes) (weights : List F64) (agg : Bytes) (k : Bytes) :
+    changed s (Api.zstore union s now dst keys weights agg).1 k → k ∈ (Api.zstore union s now dst keys weights agg).1.signalled :=
+  Proofs.C09Writers.writers_signal_zstore union s hp now dst keys weights agg k
 
 theorem writers_signal_zinterstore (s : MState) (hp : s.pebble = true) (now : Int) (dst : Bytes) (keys : List Bytes) (weights : List F64) (agg : Bytes) (k : Bytes) :
     changed s (Api.zstore false s now dst keys weights agg).1 k → k ∈ (Api.zstore false s now dst keys weights agg).1.signalled :=
   Proofs.C09Writers.writers_signal_zinterstore s hp now dst keys weights agg k
 
-/-- ZUNIONSTORE outside the finding region: the destination is live, or the call reaches its integer reply -/
-theorem writers_signal_zunionstore_partial (s : MState) (hp : s.pebble = true) (now : Int) (dst : Bytes) (keys : List Bytes) (weights : List F64) (agg : Bytes) (hreg : live s now dst = true ∨ ∃ n, (Api.zstore true s now dst keys weights agg).2 = .int n) (k : Bytes) :
+theorem writers_signal_zunionstore (s : MState) (hp : s.pebble = true) (now : Int) (dst : Bytes) (keys : List Bytes) (weights : List F64) (agg : Bytes) (k : Bytes) :
     changed s (Api.zstore true s now dst keys weights agg).1 k → k ∈ (Api.zstore true s now dst keys weights agg).1.signalled :=
-  Proofs.C09Writers.writers_signal_zunionstore_partial s hp now dst keys weights agg hreg k
-
-/-- Z*STORE, both flavours, under the region hypothesis of the union flavour -/
-theorem writers_signal_zstore_partial (union : Bool) (s : MState) (hp : s.pebble = true) (now : Int) (dst : Bytes) (keys : List Bytes) (weights : List F64) (agg : Bytes) (hreg : union = true → (live s now dst = true ∨ ∃ n, (Api.zstore true s now dst keys weights agg).2 = .int n)) (k : Bytes) :
-    changed s (Api.zstore union s now dst keys weights agg).1 k → k ∈ (Api.zstore union s now dst keys weights agg).1.signalled :=
-  Proofs.C09Writers.writers_signal_zstore_partial union s hp now dst keys weights agg hreg k
-
-/-- witness: `ZUNIONSTORE d 1 k` where `k` holds a string: the destination `d` is created (an empty sorted
-    set now exists), the nested union panics on the type assertion, nothing is signalled -/
-theorem writers_signal_zstore_finding :
-    let s : MState := { pebble := true, index := [([107], { exp := 0, value := some (.str [120]), state := 1 })] }
-    let r := Api.zstore true s 0 [100] [[107]] [] []
-    r.2 = .panic ∧ changed s r.1 [100] ∧ [100] ∉ r.1.signalled :=
-  Proofs.C09Writers.writers_signal_zstore_finding
+  Proofs.C09Writers.writers_signal_zunionstore s hp now dst keys weights agg k
 
 theorem hypothesis_pebble_is_necessary :
     let s : MState := { pebble := false, index :=
@@ -720,14 +723,13 @@ theorem no_interference_runs :
         { id := "a", name := "SET", args := [kk, [50]] }, { id := "a", name := "EXEC" } ]).2 =
       [[okTok], [okTok], [queuedTok], [Tok.arr 1, okTok]] := by decide +kernel
 
-/-- FINDING (reply only; the store is untouched): a dirty watch with an EMPTY transaction.
-    WATCH k by a; SET k by b; MULTI; EXEC by a — the EXEC replies `*0` where the property (and Redis)
-    demand null, because `exec` tests `len(conn.Commands) == 0` before it looks at the watch flags. -/
-theorem watch_sound_finding :
+/-- (a finding before the `fix:` of `exec`, now the required behaviour) a dirty watch with an EMPTY
+    transaction — WATCH k by a; SET k by b; MULTI; EXEC by a — replies null, not `*0` -/
+theorem dirty_watch_empty_transaction_replies_null :
     (run Handler.table1 { store := { pebble := true } }
       [ { id := "a", name := "WATCH", args := [kk] }, { id := "b", name := "SET", args := [kk, [49]] },
         { id := "a", name := "MULTI" }, { id := "a", name := "EXEC" } ]).2 =
-      [[okTok], [okTok], [okTok], [Tok.arr 0]] := by decide +kernel
+      [[okTok], [okTok], [okTok], [Tok.nullBulk]] := by decide +kernel
 
 /-- FINDING (end to end, consequence of `writers_signal_addInt_finding`): connection a WATCHes the
     missing key k and sees `EXISTS k = 0`; connection b sends `DECRBY k -9223372036854775808`, which
@@ -744,19 +746,28 @@ theorem watch_sound_end_to_end_finding :
         { id := "a", name := "EXEC" } ]).2 =
       [[okTok], [Tok.int 0], [Tok.nullBulk], [okTok], [queuedTok], [Tok.arr 1, Tok.int 1]] := by decide +kernel
 
+/-- (findings before the `fix:`es, now the required behaviour) `ZADD k LT 0 m` on a missing key creates
+    nothing, and `ZUNIONSTORE d 1 x` with a wrong-typed operand fails before the destination exists -/
+theorem repaired_zadd_lt_and_zunionstore_create_nothing :
+    (run fullTable { store := { pebble := true } }
+      [ { id := "a", name := "ZADD", args := [kk, [76, 84], [48], [109]] }, { id := "a", name := "EXISTS", args := [kk] },
+        { id := "a", name := "SET", args := [[120], [49]] },
+        { id := "a", name := "ZUNIONSTORE", args := [[100], [49], [120]] },
+        { id := "a", name := "EXISTS", args := [[100]] } ]).2 =
+      [[Tok.int 0], [Tok.int 0], [okTok], [Tok.err 1], [Tok.int 0]] := by decide +kernel
+
 /-- a store with a counter, for the increment theorem -/
 example : Proofs.C09Incr.CounterIs kk ({ pebble := true } : MState) 0 := Or.inl ⟨rfl, rfl⟩
 example : ((0 + 10 : Nat) : Int) ≤ int64Max := by decide
 
 end Examples
 
-/- UNPROVED: nothing from the list.  Statements that are FALSE of the model are given as `_partial` +
-   `_finding`: watch_sound (reply `*0` for an empty transaction), TableSignals Handler.table1 (DECRBY
-   -2^63), writers_signal_{addInt, setRange, zaddLT, zaddGT, zrem, zremRangeByRank, zremRangeByScore,
-   zstore(union)}.  Scope limits (stated hypotheses, not gaps): the writers table and
-   `watch_sound_changed` are for the Pebble backend (`hypothesis_pebble_is_necessary`);
-   `SignalsChanges` is established for `Handler.table1` only (the list / hash / set / zset handler
-   files are not part of the model copy this was proved against; their Api functions are covered by
-   the `writers_signal_*` table). -/
+/- UNPROVED: `SignalsChanges` for SCAN with a TYPE option (the scan loads cold records of unknown type;
+   showing that this is no logical change needs an index invariant — live record, distinct keys — that
+   `Frame` does not carry); a reachability invariant "no live empty sorted set", which would make the
+   ZREM family unconditional.  Everything else in the list is proved.  Statements that are FALSE of
+   the model are given as `_partial` + `_finding`: TableSignals (DECRBY -2^63), writers_signal_addInt,
+   writers_signal_setRange.  Scope limit (stated hypothesis): the writers table and
+   `watch_sound_changed` are for the Pebble backend (`hypothesis_pebble_is_necessary`). -/
 
 end NodisVerif.C09
